@@ -369,7 +369,10 @@ def run_check(prop, tier, seed, plan):
             inconc.append(r.inconclusive)
         for v in r.viols:
             v["job"] = r.job.label
-            v["cmd"] = " ".join(r.job.command()[0])
+            cmd, env, cwd = r.job.command()
+            v["cmd"] = " ".join(cmd)
+            v["cwd"] = cwd
+            v["env"] = {k: env[k] for k in ("RUSTFLAGS", "MIRIFLAGS", "ASAN_OPTIONS", "LSAN_OPTIONS", "TSAN_OPTIONS") if k in env}
             if prop in v["props"]:
                 k = next((k for k in known if k["prop"] == prop and k["match"] in (v["msg"] or "")), None)
                 if k:
@@ -441,10 +444,19 @@ def run_check(prop, tier, seed, plan):
 
 
 def replay(prop, path):
+    """Re-run the job(s) recorded in a replay file (after rebuilding from /repo's current tree)."""
     d = json.load(open(path))
     rc = 0
+    seen = set()
     for v in d.get("violations", []):
+        if v.get("cmd") in seen:
+            continue
+        seen.add(v.get("cmd"))
         print("replaying:", v.get("cmd"))
-        p = subprocess.run(v["cmd"].split(), cwd=HARNESS, env=base_env())
+        env = base_env()
+        env.update(v.get("env", {}))
+        p = subprocess.run(v["cmd"].split(), cwd=v.get("cwd", HARNESS), env=env)
         rc = rc or p.returncode
+    if rc:
+        print("VIOLATION property=%s replay=%s" % (prop, path))
     return 1 if rc else 0
